@@ -185,6 +185,27 @@ def run_custom1(c):
     return {"ok": [1 if i == me else 0 for i in idents], "submitted": OneWorker.submitted}
 
 
+def run_defnjobs(c):
+    """{"mode":"defnjobs","call_backend":name}: inside parallel_config(backend=<a registered backend whose default_n_jobs is -1>)
+    with no n_jobs anywhere, Parallel(backend=call_backend) without n_jobs: the n_jobs it resolves to and where its tasks run"""
+    class Greedy(pb.ThreadingBackend):
+        default_n_jobs = -1
+    joblib.register_parallel_backend("verif_greedy", Greedy)
+
+    def task():
+        return threading.get_ident()
+    try:
+        with joblib.parallel_config(backend="verif_greedy"):
+            kw = {} if c["call_backend"] is None else {"backend": c["call_backend"]}
+            p = joblib.Parallel(**kw)
+            n = p.n_jobs
+            idents = p(joblib.delayed(task)() for _ in range(6)) if c["call_backend"] in ("threading", "sequential") else []
+    except Exception as e:  # noqa
+        return {"raise": type(e).__name__}
+    me = threading.get_ident()
+    return {"ok": n, "in_caller": [1 if i == me else 0 for i in idents]}
+
+
 def run_cpu_child(c, wfd):
     import io
     os_mod = lctx.os
@@ -260,7 +281,7 @@ for line in sys.stdin:
         continue
     c = json.loads(line)
     try:
-        r = {"eff": run_eff, "api": run_api, "cpu": run_cpu, "nested": run_nested, "conf": run_conf, "custom1": run_custom1}[c["mode"]](c)
+        r = {"eff": run_eff, "api": run_api, "cpu": run_cpu, "nested": run_nested, "conf": run_conf, "custom1": run_custom1, "defnjobs": run_defnjobs}[c["mode"]](c)
     except BaseException as e:
         r = {"harness_error": repr(e)}
     OUT.write(json.dumps(r) + "\n")
